@@ -1,10 +1,10 @@
 #!/usr/bin/env python3
-"""Regenerates MANIFEST.json from harness/registry.json (kept valid at all times)."""
+"""Regenerates MANIFEST.json from harness/registry/Cxx.json (kept valid at all times)."""
 import json
 from pathlib import Path
 
 HERE = Path(__file__).resolve().parent
-reg = json.loads((HERE / "harness" / "registry.json").read_text())
+reg = {f.stem: json.loads(f.read_text()) for f in sorted((HERE / "harness" / "registry").glob("C*.json"))}
 props = [json.loads(l) for l in (HERE / "properties.jsonl").read_text().splitlines() if l.strip()]
 checks, na = [], []
 for p in props:
